@@ -1,4 +1,5 @@
 import Whv.Lemmas.ProcC01
+import Whv.Props.C07
 /-!
 # C01 — only quorum-signed, verifiable VAAs are ever stored or broadcast
 
@@ -69,6 +70,18 @@ theorem other_events_leave_store (O : Oracle) (cfg : Config) (s : PState) (now :
   · intro hr
     simp only [step] at hr
     cases hr; rfl
+
+/-- **End to end with C04–C07**: what the node publishes passes the signature section of both contracts' verification
+(`Whv/Model/Contract.lean`) for the guardian set it was completed for — the quorum formulas being the ones translated from
+the Solidity and Ralph sources on this run. Together with `C04.contract_digest_eq` (the contracts hash exactly the signing
+body out of the wire form) and `C05.decode_encode` (the wire form carries the VAA unaltered) this is "a VAA the node considers
+complete is accepted on chain". -/
+theorem published_accepted_on_chain (O : Oracle) (g : GSet) (v : Vaa) (h : Good O g v) (hne : g.keys.length ≠ 0) :
+    Whv.Contract.ralAccepts Whv.Gen.C07.ralQuorum (O.recover (O.digestOf v.body)) v.sigs g.keys = true ∧
+    Whv.Contract.solAccepts Whv.Gen.C07.solQuorum (O.recover (O.digestOf v.body)) v.sigs g.keys = true := by
+  apply Whv.C07.node_complete_accepted_on_chain _ _ _ hne h.1
+  rw [Whv.C07.go_quorum_eq]
+  exact h.2
 
 /-- The precondition on guardian sets is needed: with a repeated key the node would assemble a list that
 verification rejects (the same signer counted at two indices). -/
